@@ -9,6 +9,10 @@
     preexpand {"lines": [str]} -> {"ok": [str]}   (`_apply_pre_parsing_expansions`, line lists)
     textseg  {"text": str, "toks": [[offset, ty, len]], "k": n?} -> {"seg": [pieces], "text"?: scaled text} | {"segerr": "badChar"}
              the character-level scanner `TextLayout.seg` with the body-token oracle given as a table of token starts
+    imports  {"paths": [[import path, actual | null, items]], "files": [[id, [import paths] | null]], "init": items, "fuel": n}
+             items: ["y", [import paths]] (a .yml file) | ["c", id] (a .co file), in walk order
+             -> {"ok": {"import_paths", "imported": [[k, actual]], "files": [id], "parsed": n}} | {"err": ["unresolved", p] | ["parse", id] | ["index"]}
+                | {"fuel": true}   (`ImportLoop.fromPath`: the loops of RailsConfig.from_path did not end within the fuel)
     numbered {"lines": [str] | "text": str, "k": n?} -> {"ok": [[text, indentation, comment|null]], "tight": bool} | {"err": "IndexError", "tight": bool}
              with "k": the records of the lines after `scaleLine k`; "tight" = every line satisfies `openerTight` (hypothesis of
              `numbered_lines_scale_partial`)
@@ -19,6 +23,7 @@ import NemoVerif.Models.ErrWrap
 import NemoVerif.Models.NumberedLines
 import NemoVerif.Models.PreExpand
 import NemoVerif.Models.TextLayout
+import NemoVerif.Models.ImportLoop
 
 namespace NemoVerif.Drive.C13
 open Lean NemoVerif NemoVerif.Drive
@@ -76,8 +81,66 @@ def excOfJson (j : Json) : Except String ErrWrap.Exc := do
   let str ← (← j.getObjVal? "str").getStr?
   pure { cls, isException := isE, isValueError := isV, line, column, str }
 
+def itemOfJson (j : Json) : Except String ImportLoop.Item := do
+  let a ← j.getArr?
+  match a.toList with
+  | [.str "y", ips] => do
+    let l ← ips.getArr?
+    pure (.yml (← l.toList.mapM fun x => x.getStr?))
+  | [.str "c", f] => do pure (.co (← f.getNat?))
+  | _ => throw "bad item"
+
+def strArr (l : List String) : Json := Json.arr (l.map Json.str).toArray
+
 def handle (op : String) (j : Json) : Except String Json := do
   match op with
+  | "imports" =>
+    let pa ← (← j.getObjVal? "paths").getArr?
+    let paths ← pa.toList.mapM fun e => do
+      let a ← e.getArr?
+      match a.toList with
+      | [.str p, act, items] => do
+        let its ← (← items.getArr?).toList.mapM itemOfJson
+        match act with
+        | .str actual => pure (p, some (actual, its))
+        | _ => pure (p, (none : Option (String × List ImportLoop.Item)))
+      | _ => throw "bad path entry"
+    let fa ← (← j.getObjVal? "files").getArr?
+    let files ← fa.toList.mapM fun e => do
+      let a ← e.getArr?
+      match a.toList with
+      | [f, ips] => do
+        let id ← f.getNat?
+        match ips with
+        | .null => pure (id, (none : Option (List String)))
+        | _ => do
+          let l ← ips.getArr?
+          pure (id, some (← l.toList.mapM fun x => x.getStr?))
+      | _ => throw "bad file entry"
+    let init ← (← (← j.getObjVal? "init").getArr?).toList.mapM itemOfJson
+    let fuel ← (← j.getObjVal? "fuel").getNat?
+    let w : ImportLoop.World := { resolve := fun p => (paths.lookup p).join, parse := fun f => (files.lookup f).join }
+    -- the hypotheses of `config_load_terminates` on this world (U = the listed import paths) and its fuel bound
+    let U := paths.map (·.1)
+    let hyp := Json.bool (ImportLoop.closedWorld w U init)
+    let bound := Json.num (JsonNumber.fromNat (ImportLoop.total w U (ImportLoop.initSt init) + U.length + 4))
+    -- "api": "content" = `RailsConfig.from_content` on the .yml entries and the first .co file of `init`
+    let isContent := match j.getObjVal? "api" with | .ok (.str "content") => true | _ => false
+    let res := if isContent then
+        match ImportLoop.coFiles init with
+        | main :: _ => ImportLoop.fromContent w fuel (ImportLoop.ymlPaths init) main
+        | [] => some (.error .index)
+      else ImportLoop.fromPath w fuel init
+    match res with
+    | none => pure (Json.mkObj [("fuel", .bool true), ("closed", hyp), ("bound", bound)])
+    | some (.error (.unresolved p)) => pure (Json.mkObj [("closed", hyp), ("bound", bound), ("err", Json.arr #[.str "unresolved", .str p])])
+    | some (.error (.parse f)) => pure (Json.mkObj [("closed", hyp), ("bound", bound), ("err", Json.arr #[.str "parse", Json.num (JsonNumber.fromNat f)])])
+    | some (.error .index) => pure (Json.mkObj [("closed", hyp), ("bound", bound), ("err", Json.arr #[.str "index"])])
+    | some (.ok s) => pure (Json.mkObj [("closed", hyp), ("bound", bound), ("ok", Json.mkObj [
+        ("import_paths", strArr s.importPaths),
+        ("imported", Json.arr (s.imported.map fun (k, a) => Json.arr #[.str k, .str a]).toArray),
+        ("files", Json.arr (s.files.map fun f => Json.num (JsonNumber.fromNat f)).toArray),
+        ("parsed", Json.num (JsonNumber.fromNat s.parsed))])])
   | "layout" =>
     let a ← (← j.getObjVal? "pieces").getArr?
     let ps ← a.toList.mapM pieceOfJson
